@@ -56,7 +56,7 @@ func (pair *Pair) adjoin(b []byte) []byte {
 	for i, n := range pair.children {
 		if 0 < i {
 			if n.newline() {
-				b = append(b, indent[:n.left()+1]...)
+				b = newlineIndent(b, n.left())
 			} else {
 				b = append(b, ' ')
 			}
